@@ -180,7 +180,7 @@ def fmt_state(st, prefixes=('L:', 'G:', 'S:', 'LC:', 'LH:', 'V:')):
 # -----------------------------------------------------------------------------
 # K1 atomic order
 # -----------------------------------------------------------------------------
-def k1_atomic_order(R, prog, rule, fname, obj_suffix, op, need, sig=None, min_sites=1, which=0, inline=()):
+def k1_atomic_order(R, prog, rule, fname, obj_suffix, op, need, sig=None, min_sites=1, which=0, inline=(), value=None):
     """Every `op` on an atomic whose path ends with obj_suffix inside function fname has order >= need.
     `which`: index of the order argument (0 = success order, 1 = failure order of CAS)."""
     fs = prog.find(fname, sig=sig, all=True)
@@ -199,6 +199,8 @@ def k1_atomic_order(R, prog, rule, fname, obj_suffix, op, need, sig=None, min_si
                 continue
             if o != op:
                 continue
+            if value is not None and (not ev.e.get('args') or ev.f.const(ev.e['args'][0]) != value):
+                continue            # the rule is about the store of this value only (e.g. the hand-over `true`)
             n += 1
             got = orders[which] if which < len(orders) else (orders[0] if orders else '?')
             key = '%s:%s:%s.%s' % (rule, f.nname, obj_suffix, op)
